@@ -66,7 +66,12 @@ def classify_exception(ctx, e, where="workload"):
         if fr.filename.startswith(root) or fr.filename.startswith(VERIF_ROOT.rstrip("/") + "/"):
             inner = fr.filename
             break
-    if inner.startswith(root):
+    none_from_library = isinstance(e, (AttributeError, TypeError)) and "NoneType" in str(e)
+    if none_from_library and not inner.startswith(root):
+        # the workload used a result of the code under test that turned out to be None where the API documents an object
+        # (a helper that lost its return statement): witness of a violation, not a defect of the harness
+        ctx.fail(where, "library_result_is_none_where_an_object_is_documented", f"{type(e).__name__}@{tb[-1].name if tb else '?'}", None, error=repr(e), traceback=tb_tail(e, 8))
+    elif inner.startswith(root):
         ctx.fail(where, "valid_operation_raised", f"{type(e).__name__}@{raise_site(e)}", None, error=repr(e), traceback=tb_tail(e, 8))
     else:
         ctx.inconc(f"harness error {type(e).__name__}: {e!r} at {tb[-1].filename.split('/')[-1] if tb else '?'}:{tb[-1].lineno if tb else 0}")
